@@ -195,7 +195,7 @@ def run(tier, seed):
     run = engine.Run("C10", tier, seed)
     work = engine.workdir("C10")
     try:
-        consts = {"MaxTok": 4, "NFaults": 1} if tier == "quick" else {"MaxTok": 4, "NFaults": 2}
+        consts = {"MaxTok": 4, "NFaults": 1, "MinTok": 1} if tier == "quick" else {"MaxTok": 4, "NFaults": 2, "MinTok": 1}
         res = engine.run_tlc(work, "MC_C10", constants=consts, invariants=["RemovedIsBalanced"], timeout=7200)
         run.add_tlc(res, "DocFault: documents x fault placements, %s" % consts)
         n = 0
@@ -206,6 +206,14 @@ def run(tier, seed):
             if n % 6000 == 5:
                 run.sample({"xml": r.get("xml"), "faults": case["faults"], "expected_ids": [o[4] for o in case["out"]]})
             n += 1
+        # beyond the exhaustive bound: documents of 6..9 tokens with up to 3 faults
+        sres, vals = engine.simulate_cases(work, "MC_C10", {"MaxTok": 9, "NFaults": 3, "MinTok": 6}, num=(1 if tier == "quick" else 40), depth=14, seed=seed + 1)
+        run.add_tlc(sres, "DocFault on documents of 6-9 tokens, up to 3 faults, by TLC -simulate (%d behaviours)" % sres["behaviours"])
+        sim = [{"doc": v[1], "faults": v[2], "out": v[3], "n": i, "seed": seed} for i, v in enumerate(vals)]
+        for case, r in engine.replay("harness.c10", sim, chunk=100):
+            run.record(case, r, key=r.get("xml", str(case["doc"]) + str(case["faults"])))
+            byfault["sim:" + str(r.get("class"))] = byfault.get("sim:" + str(r.get("class")), 0) + 1
+        run.extra["simulated_documents_replayed"] = len(sim)
         run.extra["cases_by_fault_and_tag"] = byfault
     finally:
         engine.cleanup(work)
